@@ -17,6 +17,10 @@
 //!    order, the first starts at 0, each starts no later than where the previous one ended, the
 //!    last ends at the end (= every content token is covered, in order);
 //!  * consecutive windows overlap by exactly `ov` tokens;
+//!  * token offsets (S4, secondary): content offsets are the words' byte offsets, the last entry is
+//!    the offset of the token following the window (or the text length);
+//!  * an unknown [CLS]/[SEP] string must be reported as `TokenIdNotFound` (not panic, not ignored);
+//!  * `api=encode`: the result is the first chunk (limit, prefix window) or the fabricated chunk;
 //!  * a panic is reported; so is an empty result although there is room for content tokens.
 //! An empty result when `lim` leaves no room for a content token is accepted (nothing else can
 //! respect the limit; theorem `c29_no_room_unsatisfiable`), and so is the truncation of the first
@@ -34,7 +38,12 @@ fn word(j: usize) -> String {
     format!("{a}{b}")
 }
 
-fn make_tokenizer(cls: bool, sep: bool) -> Tokenizer {
+fn make_tokenizer(cls: u8, sep: u8) -> Tokenizer {
+    let name = |k: u8, known: &'static str, unknown: &'static str| match k {
+        0 => None,
+        1 => Some(known),
+        _ => Some(unknown),
+    };
     let mut vocab: HashMap<String, u32> = HashMap::new();
     vocab.insert("[CLS]".into(), 0);
     vocab.insert("[SEP]".into(), 1);
@@ -45,7 +54,8 @@ fn make_tokenizer(cls: bool, sep: bool) -> Tokenizer {
     let model = WordPiece::from_vocab(vocab, Default::default());
     Tokenizer::new(
         model,
-        TokenizerOptions { cls_token: cls.then_some("[CLS]"), sep_token: sep.then_some("[SEP]") },
+        // every public field is spelled out: a new tokenizer option breaks the build
+        TokenizerOptions { cls_token: name(cls, "[CLS]", "[XCLS]"), sep_token: name(sep, "[SEP]", "[XSEP]") },
     )
     .with_pre_tokenizer(Box::new(pre_tokenizers::Bert::new()))
 }
@@ -57,20 +67,32 @@ fn text(n: usize, base: usize) -> String {
 struct Case {
     n1: usize,
     n2: Option<usize>,
-    cls: bool,
-    sep: bool,
+    /// 0 = not configured, 1 = configured, 2 = configured with a string the model does not know
+    cls: u8,
+    sep: u8,
     lim: Option<usize>,
     ov: usize,
+    /// call `Tokenizer::encode` (first chunk / fabricated empty chunk) instead of `encode_chunks`
+    api_encode: bool,
+}
+
+impl Case {
+    fn has_cls(&self) -> bool {
+        self.cls == 1
+    }
+    fn has_sep(&self) -> bool {
+        self.sep == 1
+    }
 }
 
 type ChunkOut = (Vec<u32>, Vec<usize>, usize);
 
 /// Evaluate the property on the implementation's chunks. Returns the first failure.
-fn oracle(c: &Case, chunks: &[ChunkOut], out: &mut Out) -> Option<String> {
+fn oracle(c: &Case, chunks: &[ChunkOut], truncated: bool, out: &mut Out) -> Option<String> {
     let full1: Vec<u32> = (0..c.n1).map(|j| 3 + j as u32).collect();
     let full2: Vec<u32> = (0..c.n2.unwrap_or(0)).map(|j| 103 + j as u32).collect();
     let pair = c.n2.is_some();
-    let overhead = c.cls as usize + c.sep as usize * if pair { 2 } else { 1 };
+    let overhead = c.has_cls() as usize + c.has_sep() as usize * if pair { 2 } else { 1 };
     // room for content tokens according to the documented meaning of `max_chunk_len`
     let room = c.lim.map(|l| l.saturating_sub(overhead));
     let (windowed, prefix_room): (&[u32], Option<usize>) = if pair { (&full2, room) } else { (&full1, room) };
@@ -101,20 +123,22 @@ fn oracle(c: &Case, chunks: &[ChunkOut], out: &mut Out) -> Option<String> {
     }
     let mut prev: Option<(usize, usize)> = None; // (start, end) of the previous window
     let mut first_prefix: Option<Vec<u32>> = None;
-    for (ci, (ids, _offs, first_seq)) in chunks.iter().enumerate() {
+    let len1 = if c.n1 == 0 { 0 } else { 3 * c.n1 - 1 };
+    let len2 = c.n2.map_or(0, |n| if n == 0 { 0 } else { 3 * n - 1 });
+    for (ci, (ids, offs, first_seq)) in chunks.iter().enumerate() {
         if let Some(l) = c.lim {
             if ids.len() > l {
                 return Some(format!("chunk {ci} has {} tokens, limit {l}", ids.len()));
             }
         }
         let mut body: &[u32] = ids;
-        if c.cls {
+        if c.has_cls() {
             if body.first() != Some(&0) {
                 return Some(format!("chunk {ci} does not start with [CLS]"));
             }
             body = &body[1..];
         }
-        if c.sep {
+        if c.has_sep() {
             if body.last() != Some(&1) {
                 return Some(format!("chunk {ci} does not end with [SEP]"));
             }
@@ -122,13 +146,13 @@ fn oracle(c: &Case, chunks: &[ChunkOut], out: &mut Out) -> Option<String> {
         }
         let content: &[u32] = if pair {
             // first part up to (and including) the middle [SEP]
-            let head_len = first_seq.saturating_sub(c.cls as usize);
+            let head_len = first_seq.saturating_sub(c.has_cls() as usize);
             if head_len > body.len() {
                 return Some(format!("chunk {ci}: first_seq_tokens {first_seq} out of range"));
             }
             let (head, second) = body.split_at(head_len);
             let mut head = head;
-            if c.sep {
+            if c.has_sep() {
                 if head.last() != Some(&1) {
                     return Some(format!("chunk {ci}: first sequence not followed by [SEP]"));
                 }
@@ -171,6 +195,31 @@ fn oracle(c: &Case, chunks: &[ChunkOut], out: &mut Out) -> Option<String> {
         if content[0] < base as u32 || end > windowed.len() || &windowed[start..end] != content {
             return Some(format!("chunk {ci}: content {:?} is not a contiguous window of the encoding", content));
         }
+        // S4: token offsets. Word j of a text starts at byte 3j (second text: len1 + 3j); [CLS] carries
+        // the offset of the first content token (single) or 0 (pair), the middle [SEP] the length of
+        // the first text, and the last entry is the offset of the token following the window or the
+        // total length.
+        {
+            let tok_off = |j: usize| if pair { len1 + 3 * j } else { 3 * j };
+            let mut want: Vec<usize> = Vec::new();
+            if pair {
+                let head = first_prefix.as_ref().map_or(0, |p| p.len());
+                if c.has_cls() {
+                    want.push(0);
+                }
+                want.extend((0..head).map(|j| 3 * j));
+                if c.has_sep() {
+                    want.push(len1);
+                }
+            } else if c.has_cls() {
+                want.push(tok_off(start));
+            }
+            want.extend((start..end).map(tok_off));
+            want.push(if end < windowed.len() { tok_off(end) } else if pair { len1 + len2 } else { len1 });
+            if *offs != want {
+                return Some(format!("chunk {ci}: token offsets {:?}, expected {:?}", offs, want));
+            }
+        }
         match prev {
             None => {
                 if start != 0 {
@@ -199,24 +248,25 @@ fn oracle(c: &Case, chunks: &[ChunkOut], out: &mut Out) -> Option<String> {
         prev = Some((start, end));
     }
     if let Some((_, pe)) = prev {
-        if pe != windowed.len() {
+        if pe != windowed.len() && !truncated {
             return Some(format!("tokens {pe}..{} after the last window are not covered", windowed.len()));
         }
     }
     None
 }
 
-fn one_enc(out: &mut Out, toks: &[Tokenizer; 4], c: &Case) {
+fn one_enc(out: &mut Out, toks: &[Tokenizer; 9], c: &Case) {
     let req = format!(
-        "enc n1={} n2={} cls={} sep={} lim={} ov={}",
+        "enc n1={} n2={} cls={} sep={} lim={} ov={}{}",
         c.n1,
         c.n2.map_or("-".into(), |n| n.to_string()),
-        c.cls as u8,
-        c.sep as u8,
+        c.cls,
+        c.sep,
         c.lim.map_or("-".into(), |n| n.to_string()),
-        c.ov
+        c.ov,
+        if c.api_encode { " api=encode" } else { "" }
     );
-    let t = &toks[c.cls as usize * 2 + c.sep as usize];
+    let t = &toks[c.cls as usize * 3 + c.sep as usize];
     let t1 = text(c.n1, 0);
     let t2 = c.n2.map(|n| text(n, 100));
     let res = hcommon::catch(|| {
@@ -224,19 +274,22 @@ fn one_enc(out: &mut Out, toks: &[Tokenizer; 4], c: &Case) {
             None => EncoderInput::Item(&t1),
             Some(t2) => EncoderInput::Pair((&t1, t2)),
         };
+        // every public field is spelled out (no `..Default::default()`): a new option breaks the build
         let opts = EncodeOptions { max_chunk_len: c.lim, overlap: c.ov };
-        t.encode_chunks(input, opts).map(|chunks| {
-            chunks
-                .iter()
-                .map(|e| {
-                    let first = e.token_type_ids().filter(|&x| x == 0).count();
-                    (e.token_ids().to_vec(), e.token_offsets().to_vec(), first)
-                })
-                .collect::<Vec<ChunkOut>>()
-        })
+        let conv = |e: &rten_text::tokenizer::Encoded| {
+            let first = e.token_type_ids().filter(|&x| x == 0).count();
+            (e.token_ids().to_vec(), e.token_offsets().to_vec(), first)
+        };
+        if c.api_encode {
+            // `None` means default options; use it where it is equivalent
+            let o = if c.lim.is_none() && c.ov == 0 && c.n1 % 2 == 0 { None } else { Some(opts) };
+            t.encode(input, o).map(|e| vec![conv(&e)])
+        } else {
+            t.encode_chunks(input, opts).map(|chunks| chunks.iter().map(conv).collect::<Vec<ChunkOut>>())
+        }
     });
     let pair = c.n2.is_some();
-    let overhead = c.cls as usize + c.sep as usize * if pair { 2 } else { 1 };
+    let overhead = c.has_cls() as usize + c.has_sep() as usize * if pair { 2 } else { 1 };
     let (ans, fail) = match res {
         Err(m) => {
             // is a chunking with the requested overlap possible at all?
@@ -256,9 +309,35 @@ fn one_enc(out: &mut Out, toks: &[Tokenizer; 4], c: &Case) {
             };
             ("panic".to_string(), Some(why))
         }
-        Ok(Err(e)) => (format!("err:{e:?}").replace(['\n', '\t'], " "), Some("encode_chunks returned an error".to_string())),
+        Ok(Err(e)) => {
+            let unknown_special = c.cls == 2 || c.sep == 2;
+            let is_tokenid = matches!(
+                e,
+                rten_text::TokenizerError::EncodeError(rten_text::models::EncodeError::TokenIdNotFound(_))
+            );
+            if unknown_special && is_tokenid {
+                out.bucket("unknown_special_token_error");
+                ("err:tokenid".to_string(), None)
+            } else {
+                (format!("err:{e:?}").replace(['\n', '\t'], " "), Some("unexpected error".to_string()))
+            }
+        }
+        Ok(Ok(_)) if c.cls == 2 || c.sep == 2 => {
+            ("ok".to_string(), Some("unknown special token was silently accepted".to_string()))
+        }
         Ok(Ok(chunks)) => {
-            let f = oracle(c, &chunks, out);
+            let f = if c.api_encode {
+                // the fabricated chunk (special tokens only) stands for "no chunk"
+                let fabricated = chunks[0].0.len() == overhead;
+                if fabricated {
+                    out.bucket("encode_fabricated_empty_chunk");
+                    oracle(c, &[], true, out)
+                } else {
+                    oracle(c, &chunks, true, out)
+                }
+            } else {
+                oracle(c, &chunks, false, out)
+            };
             let s = if chunks.is_empty() {
                 "none".to_string()
             } else {
@@ -356,12 +435,16 @@ fn main() {
 
 fn run(args: &Args) {
     let mut out = Out::new(&args.out);
-    let toks = [
-        make_tokenizer(false, false),
-        make_tokenizer(false, true),
-        make_tokenizer(true, false),
-        make_tokenizer(true, true),
-    ];
+    let toks: [Tokenizer; 9] = std::array::from_fn(|i| make_tokenizer((i / 3) as u8, (i % 3) as u8));
+    // the option surface this harness and the model were written for (the model answers with
+    // the list extracted from the source by translate/encode_options.py)
+    out.bucket("fields");
+    out.case(
+        "fields",
+        "EncodeOptions:max_chunk_len,overlap TokenizerOptions:cls_token,sep_token EncoderInput:Item,Pair",
+        None,
+        true,
+    );
     // chunks_with_overlap directly: exhaustive
     let (nmax, smax) = if args.thorough { (60, 20) } else { (40, 13) };
     for n in 0..=nmax {
@@ -375,16 +458,37 @@ fn run(args: &Args) {
     let lens: Vec<usize> = if args.thorough { (0..=40).collect() } else { (0..=14).chain([17, 23, 31, 40]).collect() };
     let lims: Vec<Option<usize>> = std::iter::once(None).chain((0..=12).map(Some)).chain(if args.thorough { vec![Some(13), Some(16), Some(20), Some(50)] } else { vec![Some(20)] }).collect();
     let n1s_pair: Vec<usize> = if args.thorough { vec![0, 1, 2, 3, 4, 5, 7, 9, 12] } else { vec![0, 1, 2, 3, 5, 9] };
-    for cls in [false, true] {
-        for sep in [false, true] {
+    for cls in [0u8, 1] {
+        for sep in [0u8, 1] {
             for &lim in &lims {
                 for ov in 0..=12usize {
                     for &n in &lens {
-                        one_enc(&mut out, &toks, &Case { n1: n, n2: None, cls, sep, lim, ov });
+                        one_enc(&mut out, &toks, &Case { n1: n, n2: None, cls, sep, lim, ov, api_encode: false });
                     }
                     for &n1 in &n1s_pair {
                         for &n2 in &lens {
-                            one_enc(&mut out, &toks, &Case { n1, n2: Some(n2), cls, sep, lim, ov });
+                            one_enc(&mut out, &toks, &Case { n1, n2: Some(n2), cls, sep, lim, ov, api_encode: false });
+                        }
+                    }
+                }
+            }
+        }
+    }
+    // `Tokenizer::encode` (truncation to the first chunk) and unknown special tokens, smaller space
+    let small: Vec<usize> = vec![0, 1, 2, 3, 5, 8, 13];
+    for cls in [0u8, 1, 2] {
+        for sep in [0u8, 1, 2] {
+            for &lim in &lims {
+                for ov in [0usize, 1, 2, 5] {
+                    for api_encode in [false, true] {
+                        if !api_encode && cls < 2 && sep < 2 {
+                            continue; // covered above
+                        }
+                        for &n in &small {
+                            one_enc(&mut out, &toks, &Case { n1: n, n2: None, cls, sep, lim, ov, api_encode });
+                            for n2 in [0usize, 1, 4, 9] {
+                                one_enc(&mut out, &toks, &Case { n1: n, n2: Some(n2), cls, sep, lim, ov, api_encode });
+                            }
                         }
                     }
                 }
@@ -393,5 +497,5 @@ fn run(args: &Args) {
     }
     let _ = args.seed; // the case space is enumerated exhaustively; nothing is random
     out.note("exhaustive enumeration, no randomness; tokens are distinct words so windows are identified by their ids");
-    out.finish("cwo: all (n<=40, size<=13, overlap<=13) [thorough n<=60, size,overlap<=20]; enc: all combinations of text length (0..14,17,23,31,40 quick / 0..40 thorough), limit (none, 0..12, 20 [+13,16,50]), overlap 0..12, cls on/off, sep on/off, single text or pair with first text of 0,1,2,3,5,9 [+4,7,12] tokens; non-trivial = more than one chunk");
+    out.finish("fields: option surface; cwo: all (n<=40, size<=13, overlap<=13) [thorough n<=60, size,overlap<=20]; enc: all combinations of text length (0..14,17,23,31,40 quick / 0..40 thorough), limit (none, 0..12, 20 [+13,16,50]), overlap 0..12, cls on/off, sep on/off, single text or pair with first text of 0,1,2,3,5,9 [+4,7,12] tokens; plus Tokenizer::encode and unknown [CLS]/[SEP] strings (cls/sep in {absent, known, unknown}) over lengths 0,1,2,3,5,8,13 x second text 0,1,4,9 x every limit x overlap 0,1,2,5; non-trivial = more than one chunk");
 }
